@@ -169,6 +169,26 @@ def main(rep):
             found = found or f
             validated += v
         total += len(wcases)
+        # the images the harness feeds as editors are the images C07_elf_image_roundtrip / C13_elf_truncated_rejected
+        # speak about: ElfSpec.mk_elf (evaluated in the extracted model) must produce byte for byte what
+        # world_common.elf_image produces, and the layout specification must return the interpreter
+        if exe_model:
+            import world_common as wc2
+            icases = []
+            for interp in (wc2.X + "/ld.so", "/lib64/ld-linux-x86-64.so.2", "/" + "l" * 300, "relative/ld.so", "/x"):
+                for phnum in (2, 3, 5, 9):
+                    icases.append(("i%d" % len(icases), "elfimg %s %d" % (vlib.hexs(interp), phnum), (interp, phnum)))
+            mo, _, iproblems = vlib.correspond(exe_model, None, "pure", [(c, t) for c, t, _ in icases])
+            problems += iproblems
+            for cid, script, (interp, phnum) in icases:
+                got = (mo.get(cid) or [""])[0].split()
+                want = wc2.elf_image(interp, phnum=phnum)
+                if len(got) != 3 or vlib.unhexs(got[1]) != want or vlib.unhexs(got[2]) != interp:
+                    rep.defer_divergence({"case": cid, "script": [script], "driver": "pure (model only)", "model": got, "harness_image": vlib.hexs(want),
+                                          "what": "ElfSpec.mk_elf does not build the image the harness feeds (or the specification does not return its interpreter): the image theorems do not speak about the tested inputs"})
+                    continue
+                validated += 1
+            total += len(icases)
         rep.cov["samples"] = [bc[0][1], wcases[0][1].split("\n")[-12:]]
         for p in problems:
             rep.notes.append(p)
